@@ -111,6 +111,14 @@ def check(weak, strong, Sw, Ss, arg, cfg, driver, order, out, tier, rng, label='
         blame = 'weaker-logic-unsound'
         detail = dict(culprit_rule=(c or {}).get('rule'), weaker_family=Sw.base_name)
     else:
+        # the stronger logic's own countermodel (read off its open branch) is also an interpretation of the weaker
+        # logic; if it refutes the argument there too, the weaker logic's 'valid' is what is wrong
+        tm = transplanted_countermodel(strong, weak, Ss, Sw, arg, cfg, driver, order, tier)
+        if tm is not None:
+            c = shadow.culprit_of_valid(weak, arg, tm, dict(cfg, max_steps=pc.CAP[tier], order=order))
+            blame = 'weaker-logic-unsound'
+            detail = dict(culprit_rule=(c or {}).get('rule'), weaker_family=Sw.base_name)
+    if blame == 'declaration-or-undetermined':
         cs = search.find_countermodel(Ss, arg[0], arg[1], rng=rng, **dict(pc.SEARCH[tier], max_worlds=3))
         if cs.model is None and cs.complete:
             blame = 'stronger-logic-incomplete'
@@ -122,6 +130,44 @@ def check(weak, strong, Sw, Ss, arg, cfg, driver, order, out, tier, rng, label='
                   dict(clause='valid-in-weaker-not-in-stronger', weaker=weak, stronger=strong, blame=blame, **detail),
                   f'{gen.show_arg(arg)} is VALID in {weak} but {rs.outcome} in {strong} (declared: {strong} extends {weak}); blame={blame} {detail}',
                   size=gen.arg_size(arg), env=pc.env_for(order))
+
+
+def transplanted_countermodel(strong, weak, Ss, Sw, arg, cfg, driver, order, tier):
+    """A countermodel of ``arg`` in the weaker logic obtained from the stronger logic's open-branch models: every value the
+    evaluation can consult is copied explicitly (the two logics' unassigned values differ). None if there is none."""
+    from .. import runs
+    from ..ref.sem import Interp
+    try:
+        r = pc.run_cfg(strong, arg, cfg, driver, order, tier, models=True)
+        if r.outcome != 'INVALID':
+            return None
+        sentences = list(arg[0]) + [arg[1]]
+        for b in r.tab.open:
+            if runs.has_quit_flag(b) or b.model is None:
+                continue
+            I = runs.export_model(b.model, Ss)
+            if not I.is_countermodel(arg[0], arg[1], 0):
+                continue
+            atoms, opaques, preds, consts, has_q, has_m = search._atoms_and_opaques(Sw, sentences)
+            dom = list(I.domain) or sorted(consts)
+            A, O, P = {}, {}, {}
+            for w in I.worlds:
+                for a in atoms:
+                    A[(w, a)] = I.value(a, w)
+                for o in opaques:
+                    O[(w, o)] = I.value(o, w)
+                for pr, ps in search.ground_predications(sentences, Sw, dom):
+                    P[(w, pr, ps)] = I.value(('P', pr, ps), w)
+            if any(v not in Sw.values for v in list(A.values()) + list(O.values()) + list(P.values())):
+                continue
+            J = Interp(Sw, worlds=I.worlds, R=I.R, domain=dom, atoms=A, preds=P, opaques=O)
+            if Sw.modal and not Sw.frame_ok(J.R, J.worlds):
+                continue
+            if J.is_countermodel(arg[0], arg[1], 0):
+                return J
+    except Exception:
+        return None
+    return None
 
 
 def declared_path(strong, weak):
